@@ -71,9 +71,11 @@ def tabs_to(col_from, col_to):
 
 
 class Gen:
-    def __init__(self, rng):
+    def __init__(self, rng, rich=False):
         self.r = rng
         self.stmts = 0     # statements emitted (lines consumed by one primary each)
+        self.cont = 0      # continuation lines (a statement spread over two lines)
+        self.rich = rich   # wider statement family (casts, chained assignment, empty loops, multi-line statements)
 
     def pick(self, xs):
         return xs[self.r.randrange(len(xs))]
@@ -126,6 +128,43 @@ class Gen:
             self.block(vars_, ind, lines, depth + 1, True)
             return
         self.stmts += 1
+        if self.rich and k < 0.66:
+            j = r.choice([0, 0, 0, 1, 2, 3, 4, 5, 6, 6, 7, 7, 8, 9, 10, 11])
+            v = self.pick(vars_)
+            w = self.pick(vars_)
+            if j == 0 and depth < 2:
+                lines.append(f"{t}while ({self.cond(vars_)})")
+                lines.append(f"{t}\t;")
+                self.cont += 1       # an empty body belongs to the control statement: one statement on two lines
+            elif j == 1:
+                lines.append(f"{t}(void){v};")
+            elif j == 2:
+                lines.append(f"{t}(void){v} = {w} = {self.pick(vars_)};")
+            elif j == 3:
+                lines.append(f"{t}*{v}++ = *{w}++;")
+            elif j == 4:
+                lines.append(f"{t}{v}->next->content = {self.expr(vars_, 2)};")
+            elif j == 5:
+                lines.append(f"{t}{v} = (char *)malloc(sizeof(char) * {self.pick(CONSTS[:4])});")
+            elif j == 6:
+                lines.append(f"{t}{v} = {self.pick(FUNCS)}({self.expr(vars_, 2)},")
+                lines.append(f"{t}\t\t{self.expr(vars_, 2)});")
+                self.cont += 1
+            elif j == 7 and depth < 2:
+                lines.append(f"{t}if ({self.cond(vars_)}")
+                lines.append(f"{t}\t&& {self.cond(vars_)})")
+                self.cont += 1
+                lines.append(f"{t}\t{w}++;")
+                self.stmts += 1
+            elif j == 8:
+                lines.append(f"{t}{v} = -{w} + ~{w} - !{v};")
+            elif j == 9:
+                lines.append(f"{t}{v}[{self.expr(vars_, 2)}].x = {w}.y;")
+            elif j == 10:
+                lines.append(f"{t}{self.pick(FUNCS)}(\"%s %d\\n\", {v}, {w});")
+            else:
+                lines.append(f"{t}(*{v})({w});")
+            return
         if k < 0.60:
             lines.append(f"{t}{self.pick(vars_)} {self.pick(ASSIGN)} {self.expr(vars_)};")
         elif k < 0.75:
@@ -231,7 +270,8 @@ class Gen:
             if k != nf - 1:
                 out.append("")
                 self.stmts += 1
-        return "\n".join(out) + "\n", self.stmts
+        content = "\n".join(out) + "\n"
+        return content, content.count("\n") - self.cont
 
     def h_file(self, name):
         r = self.r
@@ -268,11 +308,12 @@ class Gen:
                 for p in r.sample(IDENTS, np_))
             out.append(f"{rtype}{tabs_to(len(rtype), col)}{star}{fn}({plist});")
         out += ["", "#endif"]
-        return "\n".join(out) + "\n", None
+        content = "\n".join(out) + "\n"
+        return content, content.count("\n")
 
 
 def gen_conforming(rng, kind=None):
-    g = Gen(rng)
+    g = Gen(rng, rich=rng.random() < 0.5)
     kind = kind or ("c" if rng.random() < 0.7 else "h")
     base = g.pick(["main", "ft_utils", "list", "parse", "a", "ft_split_2"])
     name = f"{base}.{kind}"
@@ -401,6 +442,22 @@ def specials():
     out.append(("stress_long_expr.c", ok_func("stress_long_expr.c", body="\ta = 1" + " + 1" * 200 + ";\n\treturn (0);\n"), "stress"))
     out.append(("stress_if_ok_deep.h", H("stress_if_ok_deep.h") + "\n#ifndef STRESS_IF_OK_DEEP_H\n# define STRESS_IF_OK_DEEP_H\n\n# if "
                 + "(" * 45 + "1" + ")" * 45 + "\n#  define A 1\n# endif\n\n#endif\n", "stress"))
+    # statement zoo: forms several primary rules compete for (clean ones and forbidden-but-parsable ones)
+    zoo_clean = ("\tint\t\ta;\n\tint\t\tb;\n\tint\t\tc;\n\tchar\t*p;\n\tt_list\t*l;\n\n"
+                 "\t(void)a;\n\t(void)a = b = c;\n\t*p++ = *p++;\n\tl->next->content = 0;\n\tl[1].x = b;\n"
+                 "\tp = (char *)malloc(sizeof(char) * 3);\n\ta = -b + ~c - !a;\n\ta = sizeof(int) * sizeof b;\n"
+                 "\twhile (a++ < 3)\n\t\t;\n\tif (a == 1\n\t\t&& b == 2)\n\t\tc = ft_x(1,\n\t\t\t\t2);\n"
+                 "\tft_putstr(\"a\"\n\t\t\"b\");\n\t(*p)(a);\n\treturn (ft_x(a, b) + 3);\n")
+    out.append(("zoo_clean.c", ok_func("zoo_clean.c", body=zoo_clean), "zoo"))
+    zoo_bad = ("\tint\ti;\n\tint\tj;\n\n\ti = j = 3;\n\ti++, j--;\n\ti = (i > 0) ? 1 : 2;\n\tfor (i = 0; i < 3; i++)\n\t\ti--;\n"
+               "\tdo\n\t{\n\t\ti++;\n\t} while (i < 3);\n\tswitch (i)\n\t{\n\t\tcase 1:\n\t\t\tbreak ;\n\t\tdefault:\n\t\t\tbreak ;\n\t}\n"
+               "end:\n\tgoto end;\n\twhile (i++ < 3);\n\tint k = 3;\n\treturn i;\n")
+    out.append(("zoo_bad.c", ok_func("zoo_bad.c", body=zoo_bad), "zoo"))
+    zoo_glob = ("typedef struct s_a\n{\n\tint\t\t\ta;\n\tstruct s_a\t*next;\n}\tt_a;\n\nenum e_b\n{\n\tA,\n\tB = 2\n};\n\n"
+                "static int\tg_t[3] = {1, 2, 3};\nint\t\t\t(*g_f)(int, char *);\nextern char\t**g_env;\n\n"
+                "int\t\tft_a(int a, ...);\nstatic void\tft_b(void (*f)(int), t_a *l);\nt_a\t\t*ft_c(const char *restrict s, unsigned long n);\n")
+    out.append(("zoo_glob.h", header42("zoo_glob.h") + "\n#ifndef ZOO_GLOB_H\n# define ZOO_GLOB_H\n\n" + zoo_glob + "\n#endif\n", "zoo"))
+    out.append(("zoo_glob.c", header42("zoo_glob.c") + "\n" + zoo_glob, "zoo"))
     # malformed literals (4.11)
     lits = ["0b102", "0189", "0xfg", "10lul", "10q", "1uu", "0x1e+1", "1e", "1e+", "1.e-", "1.2.3", "1.0q", "1.0ff",
             "0xx1p1", "0x1.8", "''", "'ab'", "'\\x'", "'\\q'", "L'a'", "u8\"s\"", "L''", "\"\\xZZ\"", "1..2", ".5.", "0x",
